@@ -96,12 +96,21 @@ func coreAnchors() []anchor {
 		{Name: "g_over_cap", File: "event_cache.go", Recv: "EventCache", Func: "Add", Kind: "ifcond", Select: "c.Cap",
 			Header: "(n cap : Z)", RetTy: "bool", Out: "GenCache",
 			Syms: map[string]sym{"len(c.evs)": z("n"), "c.Cap": z("cap")}},
+		{Name: "g_add_skip_ephemeral", File: "event_cache.go", Recv: "EventCache", Func: "Add", Kind: "ifcond", Select: "EventTypeEphemeral",
+			Header: "(ty : Z)", RetTy: "bool", Out: "GenCache",
+			Syms: map[string]sym{"event.EventType()": z("ty"), "EventTypeEphemeral": z("3")}},
+		{Name: "g_add_blocked", File: "event_cache.go", Recv: "EventCache", Func: "Add", Kind: "ifcond", Select: "isDeleted",
+			Header: "(by_key by_id : bool)", RetTy: "bool", Out: "GenCache",
+			Syms: map[string]sym{"c.isDeleted(eventKey, event.Pubkey)": b("by_key"), "c.isDeleted(event.ID, event.Pubkey)": b("by_id")}},
 		{Name: "g_is_kind5", File: "event_cache.go", Recv: "EventCache", Func: "Add", Kind: "ifcond", Select: "event.Kind",
 			Header: "(kind : Z)", RetTy: "bool", Out: "GenCache",
 			Syms: map[string]sym{"event.Kind": z("kind")}},
 		{Name: "g_del_other_author", File: "event_cache.go", Recv: "EventCache", Func: "delete", Kind: "ifcond", Select: "cand.Pubkey",
 			Header: "(cand_pk del_pk : str)", RetTy: "bool", Out: "GenCache",
 			Syms: map[string]sym{"cand.Pubkey": s("cand_pk"), "delEvKey.Pubkey": s("del_pk")}},
+		{Name: "g_del_is_kind5", File: "event_cache.go", Recv: "EventCache", Func: "delete", Kind: "ifcond", Select: "cand.Kind",
+			Header: "(kind : Z)", RetTy: "bool", Out: "GenCache",
+			Syms: map[string]sym{"cand.Kind": z("kind")}},
 		{Name: "g_k5_tag_short", File: "event_cache.go", Recv: "EventCache", Func: "getEventKeyFromKind5Tags", Kind: "ifcond", Select: "len(tag)",
 			Header: "(len : Z)", RetTy: "bool", Out: "GenCache",
 			Syms: map[string]sym{"len(tag)": z("len")}},
